@@ -13,12 +13,20 @@ from __future__ import annotations
 import dataclasses
 from collections import Counter
 
+from entity_query_language import predicate
+
+
+@predicate
+def same_object(x):
+    """a user predicate whose (truthy) result is an existing registered instance, not a bool"""
+    return x
+
 ID = "C14"
 LEVEL = "exploration"
 RULE = ("random hierarchies of 2-5 classes (root decorated; children dataclass or hand-written __init__, decorated or not, "
         "arbitrary parent) and histories of 6-16 operations {new (positional|keyword|defaults), symbolic construction, "
         "rule inference into an unrelated decorated family, clear, query let(T), start a result iterator inside or outside a "
-        "block and resume it right before later constructions}; every query result is compared with the "
+        "block and resume it right before later constructions, evaluate a query whose @predicate returns the (registered) object itself}; every query result is compared with the "
         "construction log. Non-trivial: a query is asked for a class that has a subclass instance or an inferred "
         "instance in the log and at least one logged instance that must NOT be returned (other branch / cleared). "
         "distinct by structural hash.")
@@ -39,7 +47,7 @@ def plan(tier, seed):
 def floors(tier):
     return {"distinct_nontrivial": 300, "op:new": 3000, "op:sym": 1000, "op:rule": 500, "op:clear": 300, "op:query": 3000,
             "cls:undecorated_subclass": 500, "cls:hand_written": 500, "cls:query_after_clear": 200,
-            "cls:inferred_instances_queried": 60, "cls:live_iterator_started_in": 100, "cls:live_iterator_started_out": 100, "queries_with_subclass_instances": 300}
+            "cls:inferred_instances_queried": 60, "op:predq": 300, "cls:live_iterator_started_in": 100, "cls:live_iterator_started_out": 100, "queries_with_subclass_instances": 300}
 
 
 def gen_case(rng):
@@ -65,6 +73,8 @@ def gen_case(rng):
             ops.append(["clear"])
         elif k < 0.75:
             ops.append(["iter", rng.choice(["out", "in"])])
+        elif k < 0.80:
+            ops.append(["predq", rng.randrange(ncls)])
         else:
             ops.append(["query", rng.choice(["main", "main", "out"]), rng.randrange(ncls)])
     ops.append(["query", "main", 0])
@@ -176,6 +186,17 @@ def check_case(case, ctx):
                 break
             log.extend(res)
             history.append(["rule", src.__name__, tgt.__name__, len(res)])
+        elif op[0] == "predq":
+            cls = main[op[1]]
+            want = [o for o in log if isinstance(o, cls)]
+            with symbolic_mode():
+                x = let(cls)
+                q = an(entity(x, same_object(x)))
+            got = list(q.evaluate())
+            history.append(["predq", cls.__name__, len(got), len(want)])
+            if Counter(map(id, got)) != Counter(map(id, want)):
+                fail = {"what": "QUERY_WITH_PREDICATE", "class": cls.__name__, "expected": len(want), "observed": len(got)}
+                break
         elif op[0] == "iter":
             pool = [o for o in log if isinstance(o, main[0])][:4]
             if len(pool) >= 2:
